@@ -126,11 +126,16 @@ def run(sc, tier, seed):
 
 
 def replay(sc, path):
-    import os
+    """Re-run the recorded input of the rejected trace on the real code of the tree under test and validate what it
+    does now; the recorded segment itself is validated too (shows whether the specification changed its mind)."""
     seg = os.path.join(path, "segment.ndjson")
-    val = V.validate_traces(sc, "Aggregates", "AggregatesTraceMC.tla", "AggregatesTrace.cfg", [seg])
+    V.build_harness()
+    out, meta = V.run_driver(sc, "c11replay", "quick", 1, args=[seg])
+    val = V.validate_traces(sc, "Aggregates", "AggregatesTraceMC.tla", "AggregatesTrace.cfg", meta["trace_files"], parallel=1)
+    old = V.validate_traces(sc, "Aggregates", "AggregatesTraceMC.tla", "AggregatesTrace.cfg", [seg], parallel=1)
+    print("replay: recorded segment %s by the current specification" % ("accepted" if old["accepted"] else "REJECTED"))
     if val["accepted"]:
-        print("replay: segment is accepted by the current specification")
+        print("replay: the code under test, re-run on the recorded input, is accepted by the specification")
         return 0
     for fp, line_no, res in val["rejections"]:
         m = re.search(r'<< "MISMATCH".*?>>\n(?=<<"TRACE-REJECTED)', res["out"], re.S)
